@@ -226,3 +226,50 @@ func genPointMachine(rng *hx.Rng, w *hx.Writer, g kyber.Group, gid int, gname st
 			Tags: []string{"history-" + gname, fmt.Sprintf("ops:%d", nOps), "nt"}})
 	}
 }
+
+// encodingOwned: an encoding handed out belongs to the caller - writing into it changes neither the
+// element nor what a later MarshalBinary of the same or of an equal element returns.
+func encodingOwned(rng *hx.Rng, w *hx.Writer, g kyber.Group, gname string, q *big.Int, failKey string) {
+	for _, kv := range []*big.Int{big.NewInt(0), big.NewInt(1), rng.BigBelow(q)} {
+		var problems []string
+		res := hx.Catch(func() string {
+			mk := func() kyber.Point {
+				if kv.Sign() == 0 {
+					return g.Point().Null()
+				}
+				return g.Point().Mul(Sc(g, kv, q), nil)
+			}
+			P := mk()
+			e1 := PtBytes(P)
+			ref := append([]byte{}, e1...)
+			for i := range e1 {
+				e1[i] ^= 0xA5
+			}
+			if !bytes.Equal(PtBytes(P), ref) {
+				problems = append(problems, "writing into a returned point encoding changed the element's next encoding")
+			}
+			if !bytes.Equal(PtBytes(mk()), ref) {
+				problems = append(problems, "writing into a returned point encoding changed the encoding of an equal element computed afterwards")
+			}
+			s1 := Sc(g, kv, q)
+			b1, _ := s1.MarshalBinary()
+			sref := append([]byte{}, b1...)
+			for i := range b1 {
+				b1[i] ^= 0xA5
+			}
+			b2, _ := s1.MarshalBinary()
+			b3, _ := Sc(g, kv, q).MarshalBinary()
+			if !bytes.Equal(b2, sref) || !bytes.Equal(b3, sref) {
+				problems = append(problems, "writing into a returned scalar encoding changed a later encoding")
+			}
+			return hx.B([]byte(strings.Join(problems, "; ")))
+		})
+		oracle := "ok"
+		if res == hx.P {
+			oracle = hx.Fail(failKey, gname+": panic after a returned encoding was written into: "+hx.LastPanic)
+		} else if len(problems) > 0 {
+			oracle = hx.Fail(failKey, gname+": "+strings.Join(problems, "; "))
+		}
+		w.Put(hx.Case{Entry: "-", Op: 0, Args: hx.L(hx.B([]byte(gname)), hx.Z(kv)), Impl: res, Oracle: oracle, Tags: []string{"returned-encoding-owned-by-caller", "nt"}})
+	}
+}
